@@ -1,9 +1,184 @@
-(* C04 - placeholder while the machinery is being built *)
+(* C04 - The bytes sent to the terminal paint exactly the rendered canvas.
+
+   Only statements here; every proof is [exact <lemma>] into Proofs/DrawScreenProofs.v.
+
+   Model/DrawScreen.v   draw_screen, _last_row, _attrspec_to_escape, clear, resize flag (tokens out)
+   Model/TermRef.v      reference VT100/xterm interpreter over tokens (the specification of "terminal")
+   Model/PaintSpec.v    what "the terminal shows the canvas" means (visual cell equality), the
+                        Screen/terminal invariant [Sync], reachable histories [Reach]
+
+   Scope of the PROVED theorems: full-screen mode (alternate buffer), every screen size >= 1x1, UTF-8
+   with characters of width 1 and 2, narrow 8-bit encodings with charset flags None and "0" (DEC special
+   graphics), any attribute table (palette entries, AttrSpec objects, undefined names), every colour
+   depth, both bright-is-bold / bright-is-blink settings, BCE on and off; incremental redraw (row
+   diff), the erase-to-end-of-line shortcut, the insert-mode trick for the bottom-right cell; any
+   history of draws, redraws of the same canvas object, clear() with arbitrary terminal contents and
+   size changes.  NOT proved (statements kept below, decided by correspondence + oracle only or
+   refuted): zero-width and C0 control characters in the canvas text, the IBMPC charset "U"
+   (refuted), partial display mode (refuted). *)
 From Coq Require Import ZArith List Bool.
 Import ListNotations.
-From Urwid Require Import PyBase TermRef DrawScreen.
+From Urwid Require Import PyBase TermRef DrawScreen PaintSpec TermRefFacts DrawScreenProofs.
 Open Scope Z_scope.
 
-Example c04_model_runs : run_case [2; 2; 1; 1; 65; 1] <> [].
-Proof. vm_compute. discriminate. Qed.
-Print Assumptions c04_model_runs.
+(* --- the SGR parameter list urwid sends for an AttrSpec means, to the terminal, exactly the visual
+       attribute of that AttrSpec, whatever attribute was selected before: every AttrSpec with basic
+       colour numbers in 0..15, any high/true colour values, every flag combination, both
+       bright-is-bold and bright-is-blink settings --- *)
+Theorem sgr_means_visual_attribute :
+  forall bib bbb s v, spec_ok s -> apply_sgr (spec_to_sgr bib bbb s) v = visual bib bbb s.
+Proof. exact sgr_roundtrip. Qed.
+Print Assumptions sgr_means_visual_attribute.
+
+(* --- one frame, from ANY state in which the Screen object and the terminal agree (whatever was drawn
+       before, so whichever rows are skipped): the tokens of draw_screen make the terminal show the
+       canvas in every cell (visual equality), put the cursor where the canvas has it or hide it,
+       never scroll, and leave Screen object and terminal in agreement for the next frame --- *)
+Theorem draw_paints :
+  forall c s t cols rows content cursor,
+    cfg_ok c -> Sync c s t -> t_cols t = cols -> t_rows t = rows ->
+    canvas_ok c cols rows content -> cursor_ok cols rows cursor ->
+    exists toks s',
+      draw_screen c s cols rows content cursor false = Ok (toks, s') /\
+      Paints c (run t toks) content cursor /\ Sync c s' (run t toks) /\ s_buf s' = content /\
+      t_cols (run t toks) = cols /\ t_rows (run t toks) = rows.
+Proof. exact draw_paints_lemma. Qed.
+Print Assumptions draw_paints.
+
+(* --- all histories: after any sequence of draws, redraws of the same canvas object, forced clears
+       (terminal contents replaced by anything) and size changes (new size, any contents) that ends
+       with a draw, the terminal paints the canvas drawn last --- *)
+Theorem history_paints :
+  forall c s t last,
+    cfg_ok c -> Reach c s t last true ->
+    exists content cursor, last = Some (content, cursor) /\ Paints c t content cursor.
+Proof. exact history_paints_lemma. Qed.
+Print Assumptions history_paints.
+
+Theorem history_keeps_sync :
+  forall c s t last shown, cfg_ok c -> Reach c s t last shown -> Sync c s t.
+Proof. exact reach_sync_lemma. Qed.
+Print Assumptions history_keeps_sync.
+
+(* --- an incremental redraw (rows equal to the screen buffer skipped) and a forced full repaint of the
+       same canvas, the latter on a terminal holding anything, both paint the canvas: the same cells
+       up to visual equality, the same cursor state, no scrolling; the screen buffers agree --- *)
+Theorem incremental_eq_full :
+  forall c s t t_any content cursor,
+    cfg_ok c -> Sync c s t -> same_but_cells t t_any ->
+    canvas_ok c (t_cols t) (t_rows t) content -> cursor_ok (t_cols t) (t_rows t) cursor ->
+    exists toks s1 toks_full s2,
+      draw_screen c s (t_cols t) (t_rows t) content cursor false = Ok (toks, s1) /\
+      draw_screen c (clear s) (t_cols t) (t_rows t) content cursor false = Ok (toks_full, s2) /\
+      Paints c (run t toks) content cursor /\ Paints c (run t_any toks_full) content cursor /\
+      s_buf s1 = s_buf s2.
+Proof. exact incremental_eq_full_lemma. Qed.
+Print Assumptions incremental_eq_full.
+
+(* --- drawing the canvas object that is already on the screen writes nothing --- *)
+Theorem redraw_same_canvas_writes_nothing :
+  forall c s cols rows content cursor,
+    s_buf s <> [] -> rows = zlen content -> draw_screen c s cols rows content cursor true = Ok ([], s).
+Proof. exact draw_same_noop. Qed.
+Print Assumptions redraw_same_canvas_writes_nothing.
+
+(* --- REFUTED of the code as it is (witnesses replayed on the implementation: corpus/C04,
+       known findings C04-ibmpc-charset-leaks-into-next-frame and
+       C04-partial-display-cy-stale-without-cursor) --- *)
+(* with the IBMPC charset "U" allowed, a frame that ends inside a "U" run leaves SGR 11 selected and
+   the next frame is painted in the wrong charset *)
+Theorem draw_paints_charset_u_refuted : ~ draw_paints_charset_u_full.
+Proof. exact charset_u_refuted_lemma. Qed.
+Print Assumptions draw_paints_charset_u_refuted.
+
+(* partial display: after a frame without a cursor self._cy is stale and later frames are painted on
+   the wrong rows *)
+Theorem draw_paints_partial_refuted : ~ draw_paints_partial_full.
+Proof. exact partial_refuted_lemma. Qed.
+Print Assumptions draw_paints_partial_refuted.
+
+(* --- NOT PROVED, decided by the correspondence and the oracle only: the statement of draw_paints for
+       canvases that also contain zero-width (combining) characters and C0 control characters (painted
+       as '?'), i.e. for every decodable text --- *)
+Definition chr_any (utf8 : bool) (ch : chr) : Prop :=
+  0 <= fst ch /\ (snd ch = 1 \/ (utf8 = true /\ (snd ch = 0 \/ snd ch = 2))) /\ (fst ch = 32 -> snd ch = 1).
+Definition canvas_any (c : cfg) (cols rows : Z) (content : list crow) : Prop :=
+  zlen content = rows /\
+  Forall (fun row : crow =>
+            Forall (fun r : crun => let '(a, cs, text) := r in
+                      Forall (chr_any (g_utf8 c)) text /\ (if g_utf8 c then cs = 0 else cs = 0 \/ cs = 1)) row
+            /\ row_width (map (fun r : crun => let '(a, cs, text) := r in (a, cs, map trans_chr text)) row) = cols)
+         content.
+Definition draw_paints_any_text_full : Prop :=
+  forall c s t cols rows content cursor,
+    cfg_ok c -> Sync c s t -> t_cols t = cols -> t_rows t = rows ->
+    canvas_any c cols rows content -> cursor_ok cols rows cursor ->
+    exists toks s',
+      draw_screen c s cols rows content cursor false = Ok (toks, s') /\
+      Paints c (run t toks)
+             (map (map (fun r : crun => let '(a, cs, text) := r in (a, cs, map trans_chr text))) content) cursor /\
+      Sync c s' (run t toks).
+
+(* --- non-vacuity --- *)
+Definition ex_cfg : cfg :=
+  mkCfg true true false false
+        [(0, default_spec);
+         (1, mkSpec 1 9 0 0 0 2 17 0 0 0 true false true false false false);      (* light red,bold,underline on h17 *)
+         (2, default_spec)].                                                        (* an undefined name *)
+(* a 4x2 canvas: wide character, attribute change, trailing blanks, bottom row needing the insert trick *)
+Definition ex_canvas : list crow :=
+  [ [(1, 0, [(19990, 2); (97, 1)]); (0, 0, [(32, 1)])];
+    [(2, 0, [(120, 1); (121, 1)]); (1, 0, [(19990, 2)])] ].
+
+Example ex_cfg_ok : cfg_ok ex_cfg.
+Proof. repeat constructor; cbn; intros; try discriminate; try (split; discriminate). Qed.
+
+(* the hypotheses of draw_paints are satisfiable by a non-trivial state: a started terminal with garbage on it *)
+Example ex_sync : Sync ex_cfg (init_scr false) (scramble (new_term 4 2) 2).
+Proof. apply sync_start. repeat split; cbn; try reflexivity; try discriminate; repeat constructor. Qed.
+
+Example ex_canvas_ok : canvas_ok ex_cfg 4 2 ex_canvas.
+Proof.
+  unfold canvas_ok, row_ok, run_ok, chr_ok, ex_canvas. cbn.
+  repeat first [apply Forall_nil | apply Forall_cons | split | discriminate | reflexivity | (left; reflexivity)
+               | (right; split; reflexivity) | (intros; discriminate) | (intros; reflexivity) | (cbv; discriminate) ].
+Qed.
+
+(* the model computes something non-trivial: SGR with bright colour, EL shortcut, CUP, the insert trick *)
+Example ex_tokens :
+  match draw_screen ex_cfg (init_scr false) 4 2 ex_canvas (Some (1, 1)) false with
+  | Ok (toks, s') =>
+      toks = [TG1; THide; TSgr [0; 39; 49]; THome; TCup 1 1;
+              TSgr [0; 91; 1; 4; 48; 5; 17]; TCh 19990 2; TCh 97 1; TSgr [0; 39; 49]; TEl;
+              TCup 2 1; TSgr [0; 39; 49]; TCh 120 1; TSgr [0; 91; 1; 4; 48; 5; 17]; TCh 19990 2;
+              TBs; TBs; TSgr [0; 39; 49]; TIrmOn; TCh 121 1; TIrmOff;
+              TCup 2 2; TShow]
+      /\ s_buf s' = ex_canvas
+  | Err _ => False
+  end.
+Proof. vm_compute. split; reflexivity. Qed.
+
+(* ... and the reference terminal, fed with these tokens over garbage, shows the canvas: bottom row *)
+Example ex_terminal_bottom_row :
+  match draw_screen ex_cfg (init_scr false) 4 2 ex_canvas (Some (1, 1)) false with
+  | Ok (toks, _) =>
+      let t := run (scramble (new_term 4 2) 2) toks in
+      map c_cp (get_row (t_grid t) 1) = [120; 121; 19990; -1] /\ (t_x t, t_y t, t_visible t, t_scrolled t) = (1, 1, true, false)
+  | Err _ => False
+  end.
+Proof. vm_compute. split; reflexivity. Qed.
+
+(* a reachable history: start, draw, clear with garbage, redraw of the same canvas object *)
+Example ex_history :
+  exists s t, Reach ex_cfg s t (Some (ex_canvas, Some (1, 1))) true /\ s_buf s = ex_canvas.
+Proof.
+  destruct (draw_paints ex_cfg (init_scr false) (scramble (new_term 4 2) 2) 4 2 ex_canvas (Some (1, 1))
+              ex_cfg_ok ex_sync eq_refl eq_refl ex_canvas_ok) as (toks & s1 & E & _ & _ & Hb & _ & _).
+  { cbn. repeat split; discriminate || reflexivity. }
+  exists s1, (run (scramble (new_term 4 2) 2) toks). split; [|exact Hb].
+  eapply (R_draw ex_cfg (init_scr false) (scramble (new_term 4 2) 2) None false ex_canvas (Some (1, 1)) toks s1).
+  - apply R_start. repeat split; cbn; try reflexivity; try discriminate; repeat constructor.
+  - exact ex_canvas_ok.
+  - cbn. repeat split; discriminate || reflexivity.
+  - exact E.
+Qed.
